@@ -3,6 +3,8 @@
 mod util;
 #[path = "../sx.rs"]
 mod sx;
+#[path = "../streamable_types.rs"]
+mod streamable_types;
 #[path = "../streamable.rs"]
 mod streamable;
 
@@ -18,5 +20,7 @@ fn main() {
         }
     }));
     let args = util::Args::parse(&argv[2..]);
-    streamable::record(&args);
+    // deep S-expressions recurse deeply: run on a thread with a large stack
+    let h = std::thread::Builder::new().stack_size(2 << 30).spawn(move || streamable::record(&args)).expect("spawn");
+    if h.join().is_err() { std::process::exit(101); }
 }
